@@ -30,7 +30,10 @@ fn shaped_line(n: usize, blank: [u8; 6], wrapped: bool) -> Line {
         };
         cells.push(c);
     }
-    Line { cells, wrapped }
+    let mut l = Line::blank(0, Pen::default());
+    l.cells = cells;
+    l.wrapped = wrapped;
+    l
 }
 
 fn trailing_defaults(l: &Line) -> usize {
